@@ -8,7 +8,7 @@
 #   5. the repository's own test suite, guard off
 cd "$(dirname "$0")"
 OUT="${TMPDIR:-/tmp}/verif-regress-out"; mkdir -p "$OUT"
-mutants/run.sh 2>&1 | tail -1
+mutants/run.sh 2>&1 | grep -E "MISMATCH|PATCH-FAILED|^sensitivity"
 q=0; t=0
 for s in 1 2 3 4 5 6 7 8 9; do
   for id in C05 C08 C09 C19 C20; do
